@@ -219,7 +219,9 @@ def run_c09(case):
                     out.append(viol("C09", "twin", "fast-path-second-derivative-differs", "", max_abs=float((b1 - b2).abs().max())))
                 elif layout == "shared":
                     for q1, q2 in zip(p1, p2):
-                        if (q1 is None) != (q2 is None) or (q1 is not None and not torch.allclose(q1, q2, rtol=2e-3, atol=1e-4)):
+                        # norm-wise: the loss is built from squared second derivatives, single entries cancel
+                        if (q1 is None) != (q2 is None) or (q1 is not None and
+                                                            float((q1 - q2).norm()) > 5e-3 * float(q2.norm()) + 1e-4):
                             out.append(viol("C09", "twin", "fast-path-parameter-gradient-differs", "",
                                             max_abs=None if q1 is None or q2 is None else float((q1 - q2).abs().max())))
                             break
